@@ -515,8 +515,17 @@ def compare(what, got_v, got_m, exp_v, exp_m, tol_abs=0.0, rtol=1e-12):
 # evaluating one aggregate on either cube type
 
 
-def call_agg(cube, agg, fact_arg, weights_arg, ignore, rma, N=None, prob=None):
+def call_agg(cube, agg, fact_arg, weights_arg, ignore, rma, N=None, prob=None, via=None):
     ra = rma_arg(rma)
+    if via == "func_tracing_off" and type(cube).__name__ == "ccube" and agg in ("count", "valid_count", "sum", "mean"):
+        # the same aggregate through an explicit function object built with tracing switched off (another closure)
+        from catii import ffuncs
+
+        if agg == "count":
+            fobj = ffuncs.ffunc_count(weights_arg, N, ignore, ra, tracing=False)
+        else:
+            fobj = getattr(ffuncs, "ffunc_" + agg)(fact_arg, weights_arg, ignore, ra, tracing=False)
+        return cube.calculate([fobj])[0]
     if agg == "count":
         return cube.count(weights_arg, N=N, ignore_missing=ignore, return_missing_as=ra)
     if agg in ("max", "min"):
